@@ -20,7 +20,7 @@ from .. import common as c
 from .. import links_util as lu
 
 PROP = "C02"
-FAMS = ["A", "B", "C", "D", "E", "F"]
+FAMS = ["A", "B", "C", "D", "E", "F", "R"]
 DEVS = [("Mono", "FinalIsExpected", "monomorphism instead of induced residue match (m04)"),
         ("NoOrder", "FinalIsExpected", "relative order check dropped (m05)"),
         ("NoLinktype", "FinalIsExpected", "edge labels ignored (m06)"),
@@ -32,7 +32,9 @@ DEVS = [("Mono", "FinalIsExpected", "monomorphism instead of induced residue mat
         ("F13", "FinalIsExpected", "finding F13 (repaired): residue attributes missing on the first residue"),
         ("VerKey", "FinalIsExpected", "finding F17 (repaired): version numbers tested against removed node keys"),
         ("DangEnd", "Export", "dangling interaction expected beyond the chain end"),
-        ("NoAtomResname", "FinalIsExpected", "independent seed C02-2: residue name not compared at the atom level")]
+        ("NoAtomResname", "FinalIsExpected", "independent seed C02-2: residue name not compared at the atom level"),
+        ("LastOfName", "FinalIsExpected", "independent seed4-C02-1: name -> atom table keeps only the last atom of a repeated name"),
+        ("RepBeforePattern", "FinalIsExpected", "independent seed2-C02-1: replace and removal carried out before the pattern veto")]
 # finding F17 (removed-node-key-equals-version) is REPAIRED: behaviour that equals the DevVerKey deviation is a VIOLATION again; the match is
 # only mentioned in the report text so that a returning defect is recognised at once
 F17_NOTE = " [observed interactions equal Links.tla with deviation DevVerKey: repaired finding F17 is back]"
@@ -41,9 +43,12 @@ SYNTAXES = [("ff", 0), ("ff", 1), ("mixed", 0)]
 
 # ------------------------------------------------------------------ S -> I
 
-def _syntax_for(fam, idx, both=False):
+def _syntax_for(fam, idx, both=False, ff=None):
     if fam == "E":
         return [("itp", 0)]
+    if ff is not None and lu.repeated_names(ff["blocks"]):
+        # a repeated atom name can only be written in a polyply .itp block (keyed by index): dangling form, or .itp blocks + .ff links
+        return [("itp", 0)] if any(b.get("dang") for b in ff["blocks"].values()) else [("mixed", idx % 2)]
     if both:
         return [SYNTAXES[idx % 3], SYNTAXES[(idx + 1) % 3]]
     return [SYNTAXES[idx % 3]]
@@ -68,7 +73,7 @@ def _replay_chunk(arg):
     for idx, case in items:
         inp, exp = case["input"], case["expected"]
         ff = ffs[inp["ff"] - 1]
-        for syntax, variant in _syntax_for(fam, idx, both):
+        for syntax, variant in _syntax_for(fam, idx, both, ff):
             paths = lu.write_ff(wd, ff["blocks"], ff["links"], syntax, variant)
             obs = lu.run_processors(inp, ff["blocks"], ff["links"], paths)
             stats["runs"] += 1
@@ -113,7 +118,7 @@ def prepare_family(ck, fam, res, tier, rng):
         raise c.MachineryError("family %s: TLC exported no case" % fam)
     ck.extra.setdefault("exported_cases", {})[fam] = len(raws)
     if tier == "quick":
-        per = {"A": 4, "B": 8, "C": 30, "D": 50, "E": 40, "F": 25}[fam]
+        per = {"A": 4, "B": 8, "C": 30, "D": 50, "E": 40, "F": 25, "R": 1000}[fam]
         pick = _stratified(raws, per, rng)
     else:
         pick = list(range(len(raws)))
@@ -257,7 +262,7 @@ def gen_params_subsets(ck, kept, plan, rng):
 def record_one(inp, paths=None, wd=None, tag="r"):
     """run the real code on an abstract input (blocks and links inside inp) and return the record LinksTrace validates"""
     if paths is None:
-        paths = lu.write_ff(wd, inp["blocks"], inp["links"], "ff", 0, tag=tag)
+        paths = lu.write_ff(wd, inp["blocks"], inp["links"], "mixed" if lu.repeated_names(inp["blocks"]) else "ff", 0, tag=tag)
     obs = lu.run_processors(inp, inp["blocks"], inp["links"], paths)
     if "exception" in obs:
         o = {"exception": obs["exception"], "ints": [], "edges": [], "removed": [], "calls": [], "attr": [], "missing": []}
@@ -274,7 +279,7 @@ def _record_chunk(arg):
     wd = c.workdir(PROP, "record_%s" % wdname)
     out = []
     for sd in seeds:
-        inp = lu.random_case(random.Random(sd))
+        inp = lu.random_case(random.Random(sd), repeat_names=True)
         out.append(record_one(inp, wd=wd))
     return out
 
@@ -376,7 +381,7 @@ def _library_chunk(arg):
 def tlc_jobs(tier):
     jobs = []
     for fam in FAMS:
-        jobs.append(("export_" + fam, "MC_Links", "Lk_export_%s.cfg" % fam, {"A": 8, "B": 3, "C": 1, "D": 1, "E": 2, "F": 2}[fam], {}))
+        jobs.append(("export_" + fam, "MC_Links", "Lk_export_%s.cfg" % fam, {"A": 8, "B": 3, "C": 1, "D": 1, "E": 2, "F": 2, "R": 1}[fam], {}))
     if tier == "quick":
         jobs.append(("model", "MC_Links", "Lk_tiny.cfg", 4, {}))
     else:
@@ -384,6 +389,7 @@ def tlc_jobs(tier):
         jobs.append(("model4", "MC_Links", "Lk_small4.cfg", 3, {}))
     jobs.append(("modelE", "MC_Links", "Lk_small_E.cfg", 2, {}))
     jobs.append(("modelF", "MC_Links", "Lk_small_F.cfg", 2, {}))
+    jobs.append(("modelR", "MC_Links", "Lk_small_R.cfg", 2, {}))
     jobs.append(("devfams", "MC_Links", "Lk_devfams.cfg", 1, {"coverage": True}))
     for name, inv, what in DEVS:
         jobs.append(("dev_" + name, "MC_Links", "Lk_dev_%s.cfg" % name, 1, {"check": False}))
@@ -393,16 +399,17 @@ def tlc_jobs(tier):
 def run(tier):
     ck = c.Check(PROP, tier)
     ck.rule = ("S->I: every case of families A (all connected residue graphs on 1-4 residues x names {A,B}^n x 106 single-link force fields: orders "
-               "+ ++ - > >> < * **, names A, B, A|B, path / star / triangle patterns of 2-4 residues), B (35 force fields with extra attributes, "
+               "+ ++ - > >> < * **, names A, B, A|B, path / star / triangle patterns of 2-4 residues), B (38 force fields with extra attributes, "
                "replace, replace null, [edges], [non-edges], [patterns], two and three links overriding / different version, graphs on <= 3 residues "
                "and all-A graphs on 4), C (edge labels), D (residue labels), E (20 monomer .itp files with dangling interactions on chains of 1-5 "
                "and mixed chains), F (links that name the residue on a subset of the atoms of an order, residues A and C with identical atom names, "
-               "node keys any permutation of the residue ids); a case is non-trivial if at least one link applies or an atom is removed. I->S: seeded random cases with 5-7 "
+               "node keys any permutation of the residue ids), R (blocks D, E that repeat an atom name - two s of different / of equal type - with links "
+               "selecting s by name only, by name and type, by a choice of names, and dangling .itp interactions on them); a case is non-trivial if at least one link applies or an atom is removed. I->S: seeded random cases with 5-7 "
                "residues, 3 block types, 3 links and force fields of the repository; distinct = record with at least one applied link")
     ck.assumptions = ["domain: every link names a residue on at least one atom; no two definitions of one (atoms, version) at the same definition index; "
                       "no link whose own edges/replacements change the outcome of its own vetoes (TLC checks these on every exported case and "
                       "skips recorded cases outside)",
-                      "atoms are identified by (residue id, atom name); atom names are unique within a block in all generated inputs",
+                      "atoms are identified by (residue id, atom name); where a block repeats an atom name, by residue id and node order of the freshly mapped molecule",
                       "interaction parameters are compared as the text token written in the force field"]
     sd = c.seed()
     rng = random.Random(sd)
@@ -414,6 +421,7 @@ def run(tier):
     if "model4" in results:
         ck.model_must_hold(results["model4"], "FinalIsExpected on four residues")
     ck.model_must_hold(results["modelE"], "FinalIsExpected on dangling .itp links")
+    ck.model_must_hold(results["modelR"], "FinalIsExpected on blocks that repeat an atom name")
     ck.model_must_hold(results["modelF"], "FinalIsExpected on links naming the residue on a subset of their atoms, permuted residue ids")
     ck.model_must_hold(results["devfams"], "sensitivity families without deviation / OrderSymmetric")
     cov = results["devfams"].coverage()
